@@ -180,6 +180,8 @@ struct Exec {
     spans: Vec<Vec<(usize, usize)>>,
     /// per thread, per completed operation: the indices of all its steps
     op_steps: Vec<Vec<Vec<usize>>>,
+    /// per thread: is an operation in progress (some but not all of its steps done)
+    in_progress: Vec<bool>,
     lists: Vec<Option<Vec<u64>>>,
     /// site names of schedule points at which `O` / `S` were reported
     sites: Vec<(usize, char, String)>,
@@ -398,6 +400,7 @@ fn exec(case: &Case, prefix: &[usize], extend: bool) -> Exec {
             ex.end = "trap".into();
         }
     }
+    ex.in_progress = cur_steps.iter().map(|c| !c.is_empty()).collect();
     let clean = ex.end == "ok";
     if !clean {
         session.abort();
@@ -591,7 +594,11 @@ fn judge(case: &Case, ex: &Exec, rep: &mut Report) {
     }
     match ex.end.as_str() {
         "dl" => {
+            // the threads that hold a mutex while they wait (an operation in
+            // progress); a thread blocked at the first step of its operation
+            // holds nothing and is a victim, not part of the cycle
             let mut kinds: Vec<&str> = (0..case.progs.len())
+                .filter(|&t| ex.in_progress.get(t).copied().unwrap_or(false))
                 .filter_map(|t| case.progs[t].get(ex.results[t].len()).map(|o| o.kind()))
                 .collect();
             kinds.sort();
